@@ -146,9 +146,13 @@ class Stranded(Harness):
         # two chromosomes (the same symbolic sequence under two names would hide mix-ups: chr2 is its reverse), 3 intervals in an
         # order that is not its own inverse
         gs += [dict(kind="ACGTnEncoding", N=3, m=3, api="genomic_sequence", chroms=c) for c in ([1, 0, 0], [1, 1, 0])]
+        # the intervals carry the chromosome codes of a genome context that lists the chromosomes in ANOTHER order than the sequence dict
+        gs += [dict(kind="ACGTnEncoding", N=3, m=2, api="genomic_sequence", chroms=c, context_order="reversed") for c in ([0, 1], [1, 1], [1, 0])]
         # history: another genome with the same chromosome names (other lengths, other bases) was queried earlier in this process
         gs += [dict(kind="ACGTnEncoding", N=3, m=2, api="genomic_sequence", prior_genome=True),
                dict(kind="ACGTnEncoding", N=3, m=2, api="genomic_sequence", chroms=[1, 0], prior_genome=True)]
+        # the plain function with EMPTY intervals among the others (start == stop), also next to '-' intervals
+        gs += [dict(kind="ascii", N=3, m=2, empty_ok=True), dict(kind="ACGTnEncoding", N=3, m=3, empty_ok=True)]
         if tier == "quick":
             return [dict(kind=k, N=3, m=m) for k in ("ascii", "ACGTnEncoding") for m in (1, 2)] + gs
         return [dict(kind=k, N=N, m=m) for k in ("ascii", "ACGTnEncoding", "ACTGEncoding") for N in (4, 5) for m in (1, 2)][:-1] + gs + \
@@ -158,7 +162,7 @@ class Stranded(Harness):
         declare_syms(V, skel["kind"], skel["N"])
         for i in range(skel["m"]):
             s = V.int(f"s{i}", 0, skel["N"]); e = V.int(f"e{i}", 0, skel["N"])
-            V.assume(s.t <= e.t if skel.get("api") else s.t < e.t)        # the genome sequence object also gets empty intervals
+            V.assume(s.t <= e.t if (skel.get("api") or skel.get("empty_ok")) else s.t < e.t)        # the genome sequence object also gets empty intervals
             V.int(f"neg{i}", 0, 1)
 
     def call(self, skel, x, ctx):
@@ -180,7 +184,13 @@ class Stranded(Harness):
             gseq = GenomicSequence.from_dict({"chr1": seq, "chr2": seq[::-1]} if "chroms" in skel else {"chr1": seq})
             iv = StrandedInterval(["chr1" if c == 0 else "chr2" for c in chroms], ctx.arr([x[f"s{i}"] for i in range(m)], "int64"), ctx.arr([x[f"e{i}"] for i in range(m)], "int64"),
                                   EncodedArray(ctx.arr([x[f"neg{i}"] for i in range(m)], "uint8"), StrandEncoding))
-            out = gseq.extract_intervals(iv, stranded=True)
+            if skel.get("context_order"):
+                from bionumpy.genomic_data import GenomicIntervals, GenomeContext
+                context = GenomeContext.from_dict({"chr2": N, "chr1": N})       # chr2 has code 0 here, chr1 code 1
+                gi = GenomicIntervals.from_fields(context, iv.chromosome, iv.start, iv.stop, iv.strand)
+                out = gseq[gi]
+            else:
+                out = gseq.extract_intervals(iv, stranded=True)
             assert len(out) == m, (len(out), m)
             return dict(rows=[ctx.lst(out[i].raw()) for i in range(m)] if m else [], seq=ctx.lst(seq.raw()))
         iv = Bed6(["c"] * m, ctx.arr([x[f"s{i}"] for i in range(m)], "int64"), ctx.arr([x[f"e{i}"] for i in range(m)], "int64"),
